@@ -1,4 +1,5 @@
 import Replicon.Model.Server
+import Replicon.Model.MutateTicks
 /-
 The client half of the replication protocol: `src/client.rs` (`apply_replication`,
 `apply_update_message`, `apply_entity_mapping`, `apply_despawn`, `apply_removals`,
@@ -25,6 +26,8 @@ structure Mutate where
   tick : Nat
   index : Nat
   ents : List MsgEnt
+  /-- `messages_count`: mutate messages the server sent for this tick (1 unless tracking is on) -/
+  count : Nat := 1
 deriving Repr, DecidableEq, Inhabited
 
 structure Client where
@@ -43,6 +46,10 @@ structure Client where
   acks : List Nat := []
   /-- the `Local<bool>` of the run condition `client_just_disconnected` -/
   lastNotDisconnected : Bool := false
+  /-- `ServerMutateTicks`, present when `track_mutate_messages` is on -/
+  mutTicks : Option MutateTicks := none
+  /-- ticks for which `MutateTickReceived` was sent in the last frame -/
+  notified : List Nat := []
 deriving Repr, Inhabited
 
 /-- `ServerEntityMap::insert` -/
@@ -167,11 +174,24 @@ def applyMutate (c : Client) (m : Mutate) : Client :=
     | .ok c' => (c', false)
     | _ => (acc.1, true)) (c, false)).1
 
+/-- the tracking half of `apply_mutate_messages`: every message that is applied (and only those)
+is confirmed in `ServerMutateTicks`; `MutateTickReceived` is sent when `confirm` reports the
+tick complete.  (It reads and writes nothing else, so doing it after the world changes of all
+ready messages is the same as interleaving it.) -/
+def trackOne (c : Client) (m : Mutate) : Client :=
+  match c.mutTicks with
+  | none => c
+  | some s =>
+    match s.confirm m.tick m.count with
+    | .ok (s', done) => { c with mutTicks := some s', notified := if done then c.notified ++ [m.tick] else c.notified }
+    | _ => c
+
 /-- `apply_mutate_messages` (after the F1 repair: acknowledged when applied) -/
 def applyBuffered (c : Client) : Client :=
   let ready := c.buffered.filter fun m => !(m.updateTick > c.updateTick)
   let keep := c.buffered.filter fun m => m.updateTick > c.updateTick
   let c := ready.foldl applyMutate { c with buffered := keep }
+  let c := ready.foldl trackOne c
   { c with acks := c.acks ++ ready.map (·.index) }
 
 /-- One client frame with the messages received since the previous one: all update messages
@@ -179,8 +199,9 @@ in arrival order, then all mutate messages buffered, then the applicable ones ap
 def frame (c : Client) (updates : List Update) (mutates : List Mutate) : Client :=
   -- `ClientSet::Reset` runs when the status was seen changing to disconnected
   let justDisconnected := c.lastNotDisconnected && !c.connected
-  let c := if justDisconnected then { c with updateTick := 0, s2c := [], c2s := [], buffered := [] } else c
-  let c := { c with lastNotDisconnected := c.connected, acks := [] }
+  let c := if justDisconnected then { c with updateTick := 0, s2c := [], c2s := [], buffered := [],
+                                              mutTicks := c.mutTicks.map fun _ => MutateTicks.default } else c
+  let c := { c with lastNotDisconnected := c.connected, acks := [], notified := [] }
   if !c.connected then c else
   let c := updates.foldl applyUpdate c
   let c := { c with buffered := mutates.foldl bufferInsert c.buffered }
